@@ -62,8 +62,18 @@ def py_opt(regs):
     return total, adj
 
 
+from .c02_core import score_gap, discriminates, regions_of_pairs  # noqa: E402,F401
+
+
 def structures(ctx):
     rng = ctx.rng
+    # a fixed corpus first: 75 small knotted structures on which a plausible wrong objective (level-0 reward doubled, penalty
+    # without the factor k, with k+1, with k*k) has no optimum that is optimal for the real one (tools_c02_corpus.py regenerates it)
+    import json
+    import os
+    path = os.path.join(os.path.dirname(os.path.dirname(os.path.abspath(__file__))), "corpus", "c02_discriminating.json")
+    for rec in json.load(open(path)):
+        yield ("discriminating", rec["pairs"])
     for n in range(1, (8 if ctx.quick else 9) + 1):
         for p in gen2d.all_matchings(n):
             if n <= 6 or gen2d.is_knotted(p):
@@ -84,6 +94,26 @@ def structures(ctx):
                 p = gen2d.thick(toks, v, gap=rng.choice([0, 1, 1]))
                 if gen2d.is_knotted(p):
                     yield ("diagram", p)
+            # near-ties: among 24 (thorough 60) drawn length vectors up to 9 pairs per stem, the ones whose best and second-best
+            # proper assignments score closest - where an objective that is off by a factor or a term picks the wrong one
+            if k >= 3:
+                scored = []
+                for _ in range(40 if ctx.quick else 100):
+                    v = [rng.randint(1, 9) for _ in range(k)]
+                    p = gen2d.thick(toks, v, gap=1)
+                    if not gen2d.is_knotted(p):
+                        break
+                    rg = regions_of_pairs(p)
+                    g = score_gap(rg)
+                    if g:
+                        scored.append((0 if discriminates(rg) else 1, g, v, p))
+                scored.sort(key=lambda t: t[1])
+                chosen = [t for t in scored if t[0] == 0][:(4 if ctx.quick else 8)] + scored[:(3 if ctx.quick else 6)]
+                seen_v = set()
+                for _, g, v, p in chosen:
+                    if tuple(v) not in seen_v:
+                        seen_v.add(tuple(v))
+                        yield ("near-tie", p)
     for _ in range(60 if ctx.quick else 400):
         k = rng.randint(3, 8 if ctx.quick else 9)
         p = gen2d.layout(rng, k, maxlen=rng.choice([2, 4, 6]), maxgap=rng.choice([0, 1, 2]))
@@ -92,7 +122,7 @@ def structures(ctx):
 
 
 def run(ctx):
-    ctx.coverage["rule"] = ("every pairing on <= N positions (N = 8 quick, 9 thorough; beyond 6 only knotted ones) + every interleaving of <= 4 stems (all chord diagrams) with drawn/enumerated stem lengths + random knotted layouts with 3-8 "
+    ctx.coverage["rule"] = ("a fixed corpus of 75 structures that tell the objective from four plausible wrong ones + every pairing on <= N positions (N = 8 quick, 9 thorough; beyond 6 only knotted ones) + every interleaving of <= 4 stems (all chord diagrams) with drawn/enumerated stem lengths + random knotted layouts with 3-8 "
                             "(thorough 9) stems of unequal lengths. Non-trivial = conflict graph non-empty; distinct by pair array. "
                             "Counted separately: cases where FCFS is sub-optimal.")
     lp_expr, lp_exp, lp_case = [], [], []
